@@ -192,6 +192,10 @@ func (p *PsUnpacker) FeedRtpBody(rtpBody []byte, rtpts uint32) error {
 	// TODO(chef): [fix] 有些没做有效长度判断
 	for p.buf.Len() != 0 {
 		rb := p.buf.Bytes()
+		if len(rb) < 4 {
+			// the rtp packet ends inside a start code, wait for the next one
+			return nil
+		}
 		i := 0
 		code := bele.BeUint32(rb[i:])
 		i += 4
@@ -344,6 +348,11 @@ func (p *PsUnpacker) parsePsm(rb []byte, index int) int {
 func (p *PsUnpacker) parseAvStream(code int, rtpts uint32, rb []byte, index int) int {
 	i := index
 
+	// the rtp packet may end anywhere, also inside the pes header
+	if len(rb)-i < 2 {
+		return -1
+	}
+
 	// 注意，由于length是两字节，所以存在一个帧分成多个pes包的情况
 	length := int(bele.BeUint16(rb[i:]))
 	if length == 65535 {
@@ -357,6 +366,11 @@ func (p *PsUnpacker) parseAvStream(code int, rtpts uint32, rb []byte, index int)
 		return -1
 	}
 
+	if length < 3 || 3+int(rb[i+2]) > length {
+		nazalog.Warnf("invalid pes header, skip. code=%d, length=%d", code, length)
+		return 2 + length
+	}
+
 	ptsDtsFlag := rb[i+1] >> 6
 	phdl := int(rb[i+2]) // pes header data length
 	i += 3
@@ -364,11 +378,11 @@ func (p *PsUnpacker) parseAvStream(code int, rtpts uint32, rb []byte, index int)
 	var pts int64 = -1
 	var dts int64 = -1
 	j := 0
-	if ptsDtsFlag&0x2 != 0 {
+	if ptsDtsFlag&0x2 != 0 && phdl >= 5 {
 		_, pts = readPts(rb[i:])
 		j += 5
 	}
-	if ptsDtsFlag&0x1 != 0 {
+	if ptsDtsFlag&0x1 != 0 && phdl >= j+5 {
 		_, dts = readPts(rb[i+j:])
 	} else {
 		dts = pts
@@ -493,6 +507,9 @@ func parsePackHeader(rb []byte, index int) int {
 	// skip stuffing
 	l := int(rb[i] & 0x7)
 	i += 1 + l
+	if len(rb) < i {
+		return -1
+	}
 
 	return i - index
 }
